@@ -16,6 +16,8 @@ from harness.session import Session
 
 PROP = "C11"
 LEVEL = "exploration"
+TECHNIQUE = 'differential execution: absolute-mode builder vs relative-mode builder, vertex-by-vertex comparison of interpreted machine positions'
+LEVEL_TEXT = 'Held on random toolpaths on a dyadic grid incl. every tracer shape and mode contexts.'
 RULE = ("toolpaths of 3-8 steps on a dyadic grid (k/64) from a random start: partial-axis moves and "
         "rapids, absolute-bypass moves, absolute_mode()/relative_mode() blocks and every tracer "
         "shape; executed on an absolute-mode and a relative-mode builder; non-trivial = contains a "
